@@ -628,7 +628,71 @@ def cmp_xml_finding(f, o):
     return d
 
 
-def check_xml(rng, findings, data, dedup_keys=None):
+def f_symbols(f):
+    return [f["symbol"]] if f.get("symbol") is not None else list(f.get("symbols", []))
+
+
+def xml_identity(f):
+    """Everything an <error> element carries (file0 and hash are not varied)."""
+    return (f["id"], f["severity"], f["short"], f["verbose"], f["cwe"], f["inconclusive"], f.get("remark", ""),
+            tuple((l[0], max(l[1], 0), l[2], l[3]) for l in f["locs"]), tuple(f_symbols(f)))
+
+
+def sarif_identity(f):
+    """Everything a SARIF result carries: ruleId, level, message text, physical locations."""
+    return (f["id"], LEVEL[f["severity"]], f["short"], tuple(sorted((l[0], max(1, l[1]), max(1, l[2])) for l in f["locs"])))
+
+
+def diff_fields(a, b):
+    d = []
+    for k, n in (("id", "id"), ("severity", "severity"), ("short", "message"), ("verbose", "verbose"), ("cwe", "cwe"),
+                 ("inconclusive", "inconclusive")):
+        if a[k] != b[k]:
+            d.append(n)
+    if f_symbols(a) != f_symbols(b):
+        d.append("symbol")
+    if len(a["locs"]) != len(b["locs"]):
+        d.append("location-count")
+    else:
+        for la, lb in zip(a["locs"], b["locs"]):
+            for i, n in enumerate(("file", "line", "column", "info")):
+                if la[i] != lb[i] and n not in d:
+                    d.append(n)
+    return d
+
+
+def align_collapsing(fmt, exp, obs, same, ident, no_location_key=None):
+    """Report written with the duplicate filter active.  Every finding must be in the report unless an earlier finding
+    that IS in the report is identical to it in everything this format carries.  -> (fails, ok, collapsed)"""
+    fails, ok, i, emitted, collapsed = [], 0, 0, [], 0
+    for f in exp:
+        if i < len(obs) and same(f, obs[i]):
+            i += 1
+            ok += 1
+            emitted.append(f)
+            continue
+        k = ident(f)
+        if any(ident(e) == k for e in emitted):
+            collapsed += 1
+            continue
+        if no_location_key and not f["locs"]:
+            fails.append((no_location_key, "finding %s (%r) has no location and is not in the report" % (f["id"], f["short"]), f))
+            continue
+        near = min(emitted, key=lambda e: len(diff_fields(e, f))) if emitted else None
+        if near is not None and 1 <= len(diff_fields(near, f)) <= 2:
+            df = diff_fields(near, f)
+            fails.append(("%s:distinct-finding-collapsed:%s" % (fmt, "+".join(df)),
+                          "duplicate filter active: finding %s is missing from the %s report although it differs from the "
+                          "reported finding %s in %s, which this format carries (%r vs %r)"
+                          % (f["id"], fmt, near["id"], "/".join(df), describe(f), describe(near)), dict(f, _near=near)))
+        else:
+            fails.append(("%s:finding-missing" % fmt, "finding %s (%r) is missing from the %s report" % (f["id"], f["short"], fmt), f))
+    if i < len(obs):
+        fails.append(("%s:surplus-findings" % fmt, "%d records beyond the reported findings, first %r" % (len(obs) - i, obs[i]), None))
+    return fails, ok, collapsed
+
+
+def check_xml(rng, findings, data, collapse=False):
     """-> (fails [(key, what, finding)], ok, parsed?)"""
     try:
         root = ET.fromstring(data)
@@ -637,12 +701,9 @@ def check_xml(rng, findings, data, dedup_keys=None):
     fails = [("xml:rng:" + k, w, None) for k, w in rng.validate(root)]
     obs = [o for o in xml_decode(root) if o["id"] != "checkersReport"]     # run-level summary, not a finding
     exp = findings
-    if dedup_keys is not None:
-        seen, exp = set(), []
-        for f, k in zip(findings, dedup_keys):
-            if k not in seen:
-                seen.add(k)
-                exp.append(f)
+    if collapse:
+        f2, ok, _ = align_collapsing("xml", exp, obs, lambda f, o: not cmp_xml_finding(f, o), xml_identity)
+        return fails + f2, ok, True
     ok = 0
     if len(obs) != len(exp):
         ids_o, ids_e = collections.Counter(o["id"] for o in obs), collections.Counter(f["id"] for f in exp)
@@ -657,7 +718,7 @@ def check_xml(rng, findings, data, dedup_keys=None):
     return fails, ok, True
 
 
-def check_sarif(findings, data, dedup_keys=None):
+def check_sarif(findings, data, collapse=False):
     try:
         doc = json.loads(data.decode("utf-8"))
     except UnicodeDecodeError as e:
@@ -671,12 +732,6 @@ def check_sarif(findings, data, dedup_keys=None):
     except (KeyError, IndexError, AssertionError, TypeError) as e:
         return [("sarif:structure", "no runs[0].results / version: %r" % e, None)], 0, True
     exp = findings
-    if dedup_keys is not None:
-        seen, exp = set(), []
-        for f, k in zip(findings, dedup_keys):
-            if k not in seen:
-                seen.add(k)
-                exp.append(f)
 
     def matches(f, r):
         d = []
@@ -697,6 +752,10 @@ def check_sarif(findings, data, dedup_keys=None):
         except (KeyError, TypeError) as e:
             d.append("result lacks %r" % e)
         return d
+    if collapse:
+        f2, ok, _ = align_collapsing("sarif", exp, results, lambda f, r: not matches(f, r), sarif_identity,
+                                     "sarif:finding-without-location-omitted")
+        return f2, ok, True
     i = 0
     for f in exp:
         d = matches(f, results[i]) if i < len(results) else ["no more results"]
@@ -780,6 +839,46 @@ def calibrate_real():
     return fs
 
 
+def near_duplicates():
+    """For two base findings (one location / two locations): the exact duplicate and every variant differing from the base
+    in exactly ONE field.  (The certainty cannot be set through the addon interface; see the real near-duplicates.)"""
+    n = itertools.count()
+    out = []
+
+    def add(label, **kw):
+        f = FD(eid=kw.pop("eid", "nd"), var="neardup:" + label, **kw)
+        out.append(f)
+        return f
+    b1 = dict(short="near duplicate", locs=[("t1", 2, 3, "")], severity="style", cwe=398)
+    add("base1", **b1)
+    add("exact", **b1)
+    add("column", **dict(b1, locs=[("t1", 2, 9, "")]))
+    add("line", **dict(b1, locs=[("t1", 3, 3, "")]))
+    add("file", **dict(b1, locs=[("t2", 2, 3, "")]))
+    add("message", **dict(b1, short="near duplicate!"))
+    add("verbose", **dict(b1, verbose="near duplicate, told at length"))
+    add("severity", **dict(b1, severity="warning"))
+    add("id", eid="nx", **b1)
+    add("cwe", **dict(b1, cwe=399))
+    add("cwe0", **dict(b1, cwe=0))
+    add("location-count", **dict(b1, locs=[("t2", 1, 1, "came from here"), ("t1", 2, 3, "")]))
+    f = add("symbol", **b1)
+    f["symbol"], f["template_msg"] = "sym", "near duplicate"
+    b2 = dict(short="near duplicate path", locs=[("t2", 1, 4, "first step"), ("t1", 2, 3, "arrives here")], severity="warning")
+    add("base2", eid="np", **b2)
+    add("exact", eid="np", **b2)
+    for label, loc in (("column", ("t2", 1, 7, "first step")), ("line", ("t2", 2, 4, "first step")),
+                       ("file", ("t3", 1, 4, "first step")), ("info", ("t2", 1, 4, "another step"))):
+        add("2nd-" + label, eid="np", **dict(b2, locs=[loc, b2["locs"][1]]))
+    add("primary-column", eid="np", **dict(b2, locs=[b2["locs"][0], ("t1", 2, 8, "arrives here")]))
+    add("primary-info", eid="np", **dict(b2, locs=[b2["locs"][0], ("t1", 2, 3, "ends here")]))
+    add("location-count", eid="np", **dict(b2, locs=[("t3", 3, 1, "zeroth step")] + b2["locs"]))
+    return out
+
+
+REAL_DUP_C = "int f(void)\n{\n    return 1 / 0 + 2 / 0;\n}\nint g(int x)\n{\n    return x / 0 + (x + 1) / 0;\n}\n"
+
+
 def triple_templates():
     """thorough, last phase: all ordered triples of distinct documented fields x 2 separators"""
     return [(a + sep + b + sep + c, None) for a, b, c in itertools.permutations(FIELDS, 3) for sep in (":", "\\n")]
@@ -851,7 +950,12 @@ class Driver:
                 name = f["locs"][-1][0]
                 art["findings"] = [describe(x) for x in batch.findings if x["locs"] and x["locs"][-1][0] == name]
                 art["real_files"] = {n: c for n, c in batch.real.items() if n == name}
-            if f is not None and f.get("template_msg"):
+            if f is not None and f.get("_near") is not None and batch.real is None:
+                art["findings"] = [describe(f["_near"]), describe(f)]      # the pair: reported finding, dropped finding
+                for a_, f_ in zip(art["findings"], (f["_near"], f)):
+                    if f_.get("template_msg"):
+                        a_["template_msg"] = f_["template_msg"]
+            elif f is not None and f.get("template_msg"):
                 art["findings"][0]["template_msg"] = f["template_msg"]
             if extra:
                 art.update(extra)
@@ -889,11 +993,7 @@ class Driver:
         if data is None or r.rc != 0:
             self.report(batch, "xml", opts, [("xml:run-failed", "exit %s (%s)" % (r.rc, r.text_err()[-200:]), None)])
             return
-        keys = None
-        if dedup:
-            ta, tb = resolve_templates(None, None)
-            keys = [render_sequential(f, ta, tb, False, batch.dir) for f in findings]
-        fails, ok, parsed = check_xml(self.rng, findings, data, keys)
+        fails, ok, parsed = check_xml(self.rng, findings, data, dedup)
         self.ctx.distinct("%s|xml|%s|%s" % (batch.name, opts, outfile))
         if not parsed:
             if len(findings) > 1:
@@ -936,11 +1036,7 @@ class Driver:
         if data is None or r.rc != 0:
             self.report(batch, "sarif", opts, [("sarif:run-failed", "exit %s (%s)" % (r.rc, r.text_err()[-200:]), None)])
             return
-        keys = None
-        if dedup:
-            ta, tb = resolve_templates(None, None)
-            keys = [render_sequential(f, ta, tb, False, batch.dir) for f in findings]
-        fails, ok, parsed = check_sarif(findings, data, keys)
+        fails, ok, parsed = check_sarif(findings, data, dedup)
         self.ctx.distinct("%s|sarif|%s|%s" % (batch.name, opts, outfile))
         files = collections.OrderedDict()
         for f in findings:
@@ -1027,6 +1123,42 @@ def main(tier, replay=None):
                 d.sarif_run(sb, plain, **kw)
         finally:
             sb.close()
+    finally:
+        b.close()
+
+    # 1b. near-duplicates with the duplicate filter ACTIVE (no --emit-duplicates): a finding may only be dropped from a
+    #     report if an identical one (in everything that format carries) is in it
+    nd = near_duplicates()
+    b = Batch("near-duplicates", nd)
+    try:
+        d.text_many(b, nd, [(None, None), ("{file}:{line}: {severity}: {message} [{id}]", None), ("{message}", "{info}"),
+                            ("{file}:{line}:{column}:{cwe}:{message}", "{file}:{line}:{column}: {info}")], dedup=True)
+        d.text_many(b, nd, [(None, None)], dedup=True, verbose=True)
+        for kw in ({"dedup": True}, {"dedup": True, "outfile": True}):
+            d.xml_run(b, nd, **kw)
+            d.sarif_run(b, nd, **kw)
+        d.xml_run(b, nd)
+        d.sarif_run(b, nd)
+        d.text_many(b, nd, [(None, None)])
+        ctx.bump("near_duplicate_findings", len(nd))
+    finally:
+        b.close()
+    b = Batch("real-near-duplicates", [], collections.OrderedDict([("dup.c", REAL_DUP_C)]))
+    try:
+        r, data = b.run([ENABLE, "--xml", "--emit-duplicates"])
+        d.runs += 1
+        try:
+            rf = [f for f in xml_decode(ET.fromstring(data))]
+            for f in rf:
+                f["symbol"], f["var"] = None, "real-neardup"
+            b.findings = rf
+            ctx.cov["real_near_duplicates"] = ["%s@%s" % (f["id"], ":".join(str(x) for x in f["locs"][-1][:3])) for f in rf]
+            for kw in ({"dedup": True}, {"dedup": True, "outfile": True}):
+                d.xml_run(b, rf, **kw)
+                d.sarif_run(b, rf, **kw)
+            d.text_many(b, rf, [(None, None), ("{file}:{line}: {message}", None)], dedup=True)
+        except ET.ParseError as e:
+            d.report(b, "xml", [ENABLE, "--xml"], [("xml:not-well-formed:real", str(e), None)])
     finally:
         b.close()
 
@@ -1179,10 +1311,10 @@ def do_replay(d, replay):
             fails, _, _ = check_text(b, fs, data, t, tloc, "-v" in opts, "--emit-duplicates" not in opts)
         elif a["format"] == "xml":
             print("observed:", data.decode("utf-8", "replace"))
-            fails, _, _ = check_xml(d.rng, fs, data)
+            fails, _, _ = check_xml(d.rng, fs, data, "--emit-duplicates" not in opts)
         else:
             print("observed:", data.decode("utf-8", "replace")[-1500:])
-            fails, _, _ = check_sarif(fs, data)
+            fails, _, _ = check_sarif(fs, data, "--emit-duplicates" not in opts)
         for kk, w, _ in fails:
             print("FAIL %s: %s" % (kk, w))
         base = replay.get("key", "").split(":")[:2]
